@@ -27,7 +27,7 @@ EXTENDS XotForest, XotLex
 UriTable ==
     << <<<<>>, "">>, <<<<117, 49>>, "u1">>, <<<<117, 50>>, "u2">>, <<<<117, 51>>, "u3">>,
        <<<<104, 116, 116, 112, 58, 47, 47, 120, 63, 97, 61, 49, 38, 98, 61, 50>>, "http://x?a=1&b=2">>,
-       <<<<117, 32, 118>>, "u v">>,
+       <<<<117, 32, 118>>, "u v">>, <<<<97, 32, 98, 32, 99, 32, 100>>, "a b c d">>,
        <<<<104, 116, 116, 112, 58, 47, 47, 119, 119, 119, 46, 119, 51, 46, 111, 114, 103, 47, 88, 77, 76, 47, 49, 57, 57, 56, 47, 110, 97, 109, 101, 115, 112, 97, 99, 101>>, XmlNs>> >>
 UriOf(cs) ==
     LET hits == {j \in 1..Len(UriTable) : UriTable[j][1] = cs} IN
